@@ -52,6 +52,11 @@ def run(tier, seed):
             raise Inconclusive("the Result specification violates its own property %s (spec bug):\n%s" % (r["violated"], r["out"][-2000:]))
         check.add_tlc(r)
         check.coverage["exhaustive_model"].append(dict(results=rids, messages=msgs, distinct_states=r["distinct"], transitions=r["states"], depth=r["depth"]))
+    # 1b. (thorough) histories of ANY length: "no duplicate, no nil stored" is an inductive invariant of the accumulator (Apalache)
+    if not quick:
+        common.apalache_inductive(check, "ResultInd")
+        check.coverage["inductive_invariant"] = ("ResultInd!IndInv (no message duplicated, nil never stored, in errors and warnings of two results under AddErrors / AddWarnings / "
+                                                 "Merge / MergeAsErrors / MergeAsWarnings incl. self-merges): Init => IndInv and IndInv /\\ Next => IndInv' discharged by Apalache 0.58")
     # 2. spec -> code: TLC-generated behaviours stepped through real validate.Result values
     nproc, num, depth = (6, 12, 30) if quick else (14, 60, 60)
 
